@@ -594,6 +594,12 @@ impl Family for C11 {
         _ => all_inputs.iter().map(|x| x.len()).sum(),
       };
       let limited = sc.take >= 0 && (sc.take as usize) < total;
+      // every input completes, so a take(n) below the total delivers exactly n items and then completes
+      if limited && ["merge", "flat_map", "concat", "zip"].contains(&sc.op.as_str()) {
+        if (items.len() as i64) < sc.take || n_complete != 1 || evs.last().map(|r| r.ev.clone()) != Some(Ev::Complete) {
+          v.push(Violation::new("item-lost", blame, format!("under take({}) with {} items available the subscriber received {} item(s): {}", sc.take, total, items.len(), show)));
+        }
+      }
       let ints: Vec<i64> = items.iter().map(|x| x.int()).collect();
       match sc.op.as_str() {
         "merge" | "flat_map" | "concat" => {
